@@ -503,6 +503,10 @@ def install_builtins(I):
             tbl = RANGE_M
         elif isinstance(v, NativeFn) and v.name == "object" and name == "__setattr__":
             return interp._object_setattr
+        elif isinstance(v, NativeFn) and v.name == "object" and name == "__new__":
+            return NativeFn(lambda interp_, cls, *a, **k: interp_.note_fresh(Obj(cls)), "object.__new__")
+        elif isinstance(v, NativeFn) and v.name == "object" and name == "__init__":
+            return NativeFn(lambda interp_, *a, **k: None, "object.__init__")
         elif isinstance(v, NativeFn) and v.name == "dict" and name == "fromkeys":
             return NativeFn(lambda interp_, ks, val=None: {k: val for k in interp_.iterate(ks)}, "dict.fromkeys")
         elif isinstance(v, NativeFn) and v.name == "int" and name == "from_bytes":
